@@ -103,3 +103,28 @@ Proof.
   - discriminate.
   - change (N.of_nat 63) with 63. apply N.ltb_lt. vm_compute. reflexivity.
 Qed.
+
+(* ---- historical: the search of the pinned tree BEFORE the repair (fix: commit 556f3b1): no guard on
+        [mid = 0], so [mid - 1] underflows for any key below the first product ------------------------- *)
+Fixpoint fip_loop_unrepaired (fuel : nat) (chk : bool) (key low high : N) : res N :=
+  match fuel with
+  | O => Diverge
+  | S f =>
+      if low <=? high then
+        let* s := add_w U64 chk high low in
+        let mid := N.shiftr s 1 in
+        let* product := tget PRODUCTS_T mid in
+        if key <? product then
+          let* h := sub_w U64 chk mid 1 in fip_loop_unrepaired f chk key low h
+        else if product <? key then
+          let* l := add_w U64 chk mid 1 in fip_loop_unrepaired f chk key l high
+        else Ok mid
+      else Ok 0
+  end.
+
+(* key 0 (the prime product of any hand with a blank): checked builds panic on the subtraction, unchecked
+   builds wrap to 2^64 - 1 and panic on the table index *)
+Lemma unrepaired_refuted :
+  fip_loop_unrepaired FIP_FUEL true 0 0 4887 = Panic /\ fip_loop_unrepaired FIP_FUEL false 0 0 4887 = Panic /\
+  find_in_products true 0 = Ok 0 /\ find_in_products false 0 = Ok 0.
+Proof. repeat split; vm_compute; reflexivity. Qed.
